@@ -30,7 +30,7 @@ def plan(tier):
 
 
 def n_cases(tier):
-    return 3000 if tier == 'thorough' else 150
+    return 20000 if tier == 'thorough' else 250
 
 
 def one_case(rng, tier):
